@@ -1,6 +1,7 @@
 import Model.Base.Proto
 import Model.Fmt.Name
 import Model.Proc.Extract
+import Model.Proc.CfgHist
 import Model.Spec.Name
 
 namespace Driver.C05
@@ -38,43 +39,26 @@ def specVal (name : Bytes) (cfg : List (Bytes × Bytes)) (key : Bytes) : String 
     | some kv => kv.2.toHex
     | none => ""
 
-/-- Specification of configuration built through the API: each result is a finite map; `S k=v`
-sets (deletes when v is empty) on the current one, `C` copies it, `B` returns to the previous. -/
-abbrev CfgMap := List (Bytes × Bytes)
-
-def cfgSet (m : CfgMap) (k v : Bytes) : CfgMap :=
-  let m' := m.filter (·.1 != k)
-  if v.isEmpty then m' else m' ++ [(k, v)]
-
-structure CfgSt where
-  all : List CfgMap        -- every result ever created, in creation order
-  cur : Nat                -- index of the current one
-  stack : List Nat
-
-def cfgStep (s : CfgSt) (op : Bytes) : CfgSt :=
-  if op == [67] then  -- "C"
-    { all := s.all ++ [s.all.getD s.cur []], cur := s.all.length, stack := s.cur :: s.stack }
-  else if op == [66] then  -- "B"
-    match s.stack with
-    | p :: rest => { s with cur := p, stack := rest }
-    | [] => s
+/-- Configuration built through the API (`kind=cfg`): `S k=v` sets (deletes when v is empty) on the
+current result, `C` clones it (the clone becomes current), `B` returns to the previous one.
+obs: the slot-store model of the code (`Proc.CfgHist.stepStore`, lookups through the index);
+spec: one finite map per result (`stepMap`). `Proofs/C05Store.lean` proves them equal. -/
+def parseOp (op : Bytes) : Proc.CfgHist.HOp :=
+  if op == [67] then .clone
+  else if op == [66] then .back
   else
     let body := op.drop 1
-    let k := body.takeWhile (· != 61)
-    let v := (body.dropWhile (· != 61)).drop 1
-    { s with all := s.all.set s.cur (cfgSet (s.all.getD s.cur []) k v) }
+    .set (body.takeWhile (· != 61)) ((body.dropWhile (· != 61)).drop 1)
 
 def handleCfg (l : Line) : IO Unit := do
-  let ops := (l.hexList? "ops").getD []
-  let st := ops.foldl cfgStep { all := [[]], cur := 0, stack := [] }
+  let ops := ((l.hexList? "ops").getD []).map parseOp
   let keys : List Bytes := [[97], [98], [99], [107]]
-  let outs := st.all.map fun m =>
-    ":".intercalate (keys.map fun k => match m.find? (·.1 == k) with
-      | some kv => kv.2.toHex
-      | none => "")
-  let line := s!"maps={",".intercalate outs}"
-  IO.println s!"obs {l.id} {line}"
-  IO.println s!"spec {l.id} {line}"
+  let sts := (ops.foldl Proc.CfgHist.stepStore Proc.CfgHist.initStore).all
+  let mps := (ops.foldl Proc.CfgHist.stepMap Proc.CfgHist.initMap).all
+  let o := sts.map fun s => ":".intercalate (keys.map fun k => (Proc.CfgHist.lookupStore s k).toHex)
+  let p := mps.map fun m => ":".intercalate (keys.map fun k => (Proc.CfgHist.lookupMap m k).toHex)
+  IO.println s!"obs {l.id} maps={",".intercalate o}"
+  IO.println s!"spec {l.id} maps={",".intercalate p}"
 
 def handle (l : Line) : IO Unit := do
   if l.kind != "case" then return
